@@ -219,6 +219,18 @@ func classifyOutcome(st *stats.Collector, r *fx.Result) {
 // a warning, exactly the value that Go's time.Date produces from the raw (out-of-range)
 // field numbers — i.e. the overflow was carried into the next month / day / hour / minute.
 func knownShift(st *stats.Collector, bad fields, ft format, b breakage, h12 int, got any) bool {
+	// The parser range-checks %m (1…12) and %d (1…31); a shift through one of them is not this
+	// finding (it is what remains generated while the finding is listed).
+	switch b {
+	case bMonthZero, bMonthOver12:
+		if ft.has('m') {
+			return false
+		}
+	case bDayOver31, bDayZero:
+		if ft.has('d') {
+			return false
+		}
+	}
 	h := bad.h
 	if ft.uses12h {
 		h = h12 // the hour number as written (AM/PM is not applied either: C31-strtodate-ampm-ignored)
